@@ -25,6 +25,15 @@ PRE_ACCESS = [
 ]
 
 
+# data layouts for UxDataArray.get_dual: grid dimension first, in the middle, last; both centrings
+LAYOUTS = [
+    [("n_face", "lev"), ("time", "n_node", "lev")],
+    [("n_node", "lev"), ("time", "n_face", "lev")],
+    [("lev", "n_face", "time"), ("n_node", "time")],
+    [("n_face", "time", "lev"), ("lev", "n_node")],
+]
+
+
 def lonlat_of_case(case):
     """Node (lon, lat) in degrees.  A pole's longitude is arbitrary and a node on the
     antimeridian may be given as +180 or -180: both are varied with the case."""
@@ -69,21 +78,39 @@ def oracle_centres(case, lon, lat):
     return out
 
 
+SNAP = 1e-8  # the library snaps a derived position to the pole when 1 - |z| < 1e-8 (a cap of ~1.4e-4 rad)
+
+
 def match_positions(lons, lats, centres):
-    """For each reported position the id of the centre it coincides with (-1 if none)."""
+    """For each reported position the id of the centre it coincides with (-1 if none), and how many
+    were accepted only through the library's pole snap.  Position i is compared with centre i first
+    (several centres may coincide once snapped); inside the snap cap the property family (C04) allows the
+    reported position to be the pole itself, so there both only have to lie in the cap of the same pole."""
     import numpy as np
 
     if len(lons) == 0:
-        return []
+        return [], 0
     c = np.array(centres, dtype=float)
     p = np.array([unit_of_lonlat(float(a), float(b)) for a, b in zip(lons, lats)])
-    out = []
-    for q in p:
-        cr = np.cross(c, q)
-        ang = np.arctan2(np.sqrt((cr * cr).sum(axis=1)), c @ q)
-        j = int(np.argmin(ang))
-        out.append(j if ang[j] <= POS_TOL else -1)
-    return out
+    out, snapped = [], 0
+
+    def ang(u, q):
+        cr = np.cross(u, q)
+        return np.arctan2(np.sqrt((cr * cr).sum(axis=-1)), u @ q)
+
+    for i, q in enumerate(p):
+        if i < len(c):
+            if ang(c[i], q) <= POS_TOL:
+                out.append(i)
+                continue
+            if 1.0 - abs(c[i][2]) < 1.5 * SNAP and 1.0 - abs(q[2]) < 1.5 * SNAP and c[i][2] * q[2] > 0:
+                out.append(i)
+                snapped += 1
+                continue
+        a = ang(c, q)
+        j = int(np.argmin(a))
+        out.append(j if a[j] <= POS_TOL else -1)
+    return out, snapped
 
 
 def build_primal(case):
@@ -133,10 +160,12 @@ def faces_ccw_float(case, lon, lat):
     for f in case["faces"]:
         us = [unit_of_lonlat(lon[k], lat[k]) for k in f]
         c = [sum(u[i] for u in us) for i in range(3)]
-        tot = 0.0
+        tot, mag = 0.0, 0.0
         for a, b in zip(us, us[1:] + us[:1]):
-            tot += c[0] * (a[1] * b[2] - a[2] * b[1]) + c[1] * (a[2] * b[0] - a[0] * b[2]) + c[2] * (a[0] * b[1] - a[1] * b[0])
-        if not tot > 1e-12:
+            t = c[0] * (a[1] * b[2] - a[2] * b[1]) + c[1] * (a[2] * b[0] - a[0] * b[2]) + c[2] * (a[0] * b[1] - a[1] * b[0])
+            tot += t
+            mag += abs(t)
+        if not (tot > 0.0 and tot > 0.5 * mag):  # relative: fine faces have tiny areas
             return False
     return True
 
@@ -183,9 +212,9 @@ def record_case(case):
         if "file" not in case:
             # independent oracle (normalised mean of the corner unit vectors).  A file may supply its own
             # centres (MPAS: the cell's generating point), then "the face's centre" is the supplied one.
-            rec["pos"] = match_positions(d.node_lon.values, d.node_lat.values, cen)
+            rec["pos"], rec["pos_snapped"] = match_positions(d.node_lon.values, d.node_lat.values, cen)
         own = [unit_of_lonlat(float(a), float(b)) for a, b in zip(g.face_lon.values, g.face_lat.values)]
-        rec["posown"] = match_positions(d.node_lon.values, d.node_lat.values, own)
+        rec["posown"], _ = match_positions(d.node_lon.values, d.node_lat.values, own)
         if case["closed"] and case.get("data", True):
             nf, nn = len(case["faces"]), rec["n_node"]
             stage = "UxDataArray.get_dual (face-centred)"
@@ -206,6 +235,21 @@ def record_case(case):
                 "base": base,
             }
             rec["dual3"] = hux.table(nd.uxgrid.face_node_connectivity)[0]
+            # the grid dimension first / in the middle, both directions (dims are swapped by name)
+            stage = "UxDataArray.get_dual (layouts)"
+            sizes = {"n_face": nf, "n_node": nn, "lev": 3, "time": 2}
+            lays = []
+            for in_dims in LAYOUTS[case.get("variant", 0) % len(LAYOUTS)]:
+                shape = [sizes[d] for d in in_dims]
+                n = int(np.prod(shape))
+                lda = ux.UxDataArray(
+                    (np.arange(n, dtype=np.int64) + base).reshape(shape), dims=list(in_dims), uxgrid=g, name="layout"
+                )
+                ld = lda.get_dual()
+                lv = np.asarray(ld.values)
+                lays.append({"in_dims": list(in_dims), "out_dims": [str(x) for x in ld.dims],
+                             "shape": [int(x) for x in lv.shape], "vals": [int(x) for x in lv.ravel()], "base": base})  # fmt: skip
+            rec["layouts"] = lays
             if case.get("variant", 0) % 2 == 0:
                 stage = "UxDataset (construction)"
                 try:
